@@ -16,6 +16,12 @@ R-WHORET   who may return which code: TooDeep only under reached(), NoMemory
            skipSpacesAndComments/parse, IncompleteInput only on a 'character
            is NUL' edge.
 R-OPTGATE  comments / NaN / Infinity code exists exactly when the option is on.
+R-VALIDAFTER a routine of the JSON reader that appends to the string builder
+           returns Ok only after isValid() held *after the last append*
+           (forward typestate: append -> dirty, isValid() true edge ->
+           checked; `return Ok` while dirty is the violation): a failed
+           growth of the builder is otherwise reported as success and the
+           caller uses a null string node.
 """
 from lib import absint, typestate
 from lib import prog as P
@@ -394,6 +400,98 @@ def r_optgate(ctx, prog, rule="R-OPTGATE"):
                "accepted: %s" % bytes(sorted(got)).decode("latin1") if ok else
                "canBeInNumber accepts %r but with NaN=%d Infinity=%d the documented set is %r" %
                (bytes(sorted(got)).decode("latin1"), nan, inf, bytes(sorted(base | extra)).decode("latin1")))
+    # the keyword spellings inside parseNumber follow their own option
+    npn = 0
+    for fn in sorted(prog.q("detail::parseNumber"), key=lambda f: f.key):
+        if len(fn.params) != 1 or fn.d.get("targs") or fn.cfg is None:
+            continue
+        npn += 1
+        LET = set(range(ord("a"), ord("z") + 1)) | set(range(ord("A"), ord("Z") + 1))
+
+        def letter_guarded(r):
+            for a in fn.ancestors(r):
+                sa = fn.s(a)
+                if sa["k"] == "CaseStmt" and int(sa["lo"]) in LET:
+                    return True
+            conds = [c for c, pol in fn.guards_of(r) if pol and fn.s(fn.strip(c, casts=True))["k"] == "BinaryOperator" and fn.s(fn.strip(c, casts=True))["op"] in ("==", "||")]
+            for a in fn.ancestors(r):
+                sa = fn.s(a)
+                if sa["k"] == "IfStmt" and sa.get("then") is not None and r in set(fn.walk(sa["then"])):
+                    conds.append(sa["cond"])
+            for cond in conds:
+                for x in fn.walk(cond):
+                    sx = fn.s(x)
+                    if sx["k"] == "CharacterLiteral" and int(sx.get("v", 0)) in LET and int(sx.get("v", 0)) not in (ord("e"), ord("E")):
+                        return True
+            return False
+        kw = {"nan": False, "inf": False}
+        for r in fn.walk():
+            if fn.s(r)["k"] != "ReturnStmt":
+                continue
+            for x in fn.walk(r):
+                sx = fn.s(x)
+                if sx["k"] in P.CALL_KINDS and "callee" in sx:
+                    nm = sx["callee"]["q"].split("::")[-1]
+                    if nm in kw and letter_guarded(r):
+                        kw[nm] = True
+        ctx.ob(rule, "parseNumber spells NaN %s" % ("when enabled" if nan else "only when enabled"), kw["nan"] == nan, fn.where,
+               "" if kw["nan"] == nan else "ENABLE_NAN=%d but parseNumber %s a letter-introduced NaN: %s" %
+               (nan, "recognises" if kw["nan"] else "does not recognise", "texts such as [NaN] are accepted although the option is off"
+                if kw["nan"] else "the documented spelling is rejected"))
+        ctx.ob(rule, "parseNumber spells Infinity %s" % ("when enabled" if inf else "only when enabled"), kw["inf"] == inf, fn.where,
+               "" if kw["inf"] == inf else "ENABLE_INFINITY=%d but parseNumber %s a letter-introduced infinity: %s" %
+               (inf, "recognises" if kw["inf"] else "does not recognise", "texts such as [-Infinity] are accepted although the option is off"
+                if kw["inf"] else "the documented spelling is rejected"))
+    ctx.floor(rule, "parseNumber(const char*)", npn, 1)
     for r_ in ("R-RESET", "R-NUMBUF", "R-WS", "R-CLOSER", "R-PROGRESS", "R-WHORET", "R-OPTGATE"):
         ctx.doc(r_, [l.strip() for l in __doc__.split("\n") if l.startswith(r_)][0])
+
+
+def r_validafter(ctx, prog, rule="R-VALIDAFTER"):
+    n = 0
+    for fn in sorted(prog.fns.values(), key=lambda f: f.key):
+        if not fn.cls.endswith("JsonDeserializer") or fn.cfg is None:
+            continue
+        apps = [i for i, st in fn.calls() if st["callee"]["q"].endswith("StringBuilder::append")]
+        if not apps:
+            continue
+        n += 1
+
+        def transfer(fn_, e, s_):
+            st = fn_.s(e)
+            if st["k"] in P.CALL_KINDS and "callee" in st and st["callee"]["q"].endswith("StringBuilder::append"):
+                return ("dirty",)
+            return (s_,)
+
+        def branch(fn_, cond, pol, s_):
+            if isinstance(cond, tuple):
+                return s_
+            c = fn_.s(fn_.strip(cond, casts=True))
+            neg = False
+            while c["k"] == "UnaryOperator" and c["op"] == "!":
+                neg = not neg
+                c = fn_.s(fn_.strip(c["c"][0], casts=True))
+            if c["k"] in P.CALL_KINDS and c.get("callee", {}).get("q", "").endswith("StringBuilder::isValid"):
+                if pol != neg:
+                    return "checked"
+            return s_
+
+        def check(fn_, e, s_):
+            if s_ == "dirty" and returns_code(fn_, e, "Ok"):
+                return "returns Ok after an append without a later isValid()"
+            return None
+        reports, _x, err = typestate.analyse(fn, "clean", transfer, branch, check)
+        if err:
+            ctx.ob(rule, "%s: Ok only after isValid() following the last append" % fn.short, None, fn.where, err)
+            continue
+        ok = not reports
+        ctx.ob(rule, "%s: Ok only after isValid() following the last append" % fn.short, ok, fn.where if ok else fn.loc(reports[0][0]),
+               "%d append site(s), every `return Ok` is reached in state checked" % len(apps) if ok else
+               "a path appends to the string builder and then returns Ok without testing isValid() afterwards: when the builder "
+               "cannot grow (allocation failure, string longer than the length limit) the routine reports success and the caller "
+               "dereferences the null string node instead of returning NoMemory")
+    ctx.floor(rule, "JSON routines appending to the string builder", n, 2)
+    ctx.doc(rule, [l.strip() for l in __doc__.split("\n") if l.startswith(rule)][0])
+
+
 EOF_MARKER = None
